@@ -972,31 +972,29 @@ int main(int argc, char **argv) {
                     "numbers, array root, removed members, empty); rendered as char and char32_t from an exact-size buffer and compared with an "
                     "independent reference interpreter that returns the set of outputs the document admits";
         plan.bounds = "nodes<=" + std::to_string(k);
-        static std::vector<std::string>  templates;
-        static std::vector<Body>         asts;
         static std::vector<VSpec>        specs = value_specs();
         static std::vector<JNode>        models;
+        // the templates are enumerated again in every chunk and not kept (4-node templates do not fit in memory): a chunk
+        // takes every NCH-th template of the deterministic enumeration order
+        static const int64_t NCH = 256;
+        static int           kk;
+        kk = k;
+        int64_t ntemplates = 0;
         {
             Gen g;
-            std::set<std::string> seen;
             g.bodies(k, 0, false, 3, [&](const Body &b, int) {
-                if (b.empty()) {
-                    return;
-                }
-                std::string s = src_of(b);
-                if (seen.insert(s).second) {
-                    templates.push_back(s);
-                    asts.push_back(b);
+                if (!b.empty()) {
+                    ++ntemplates;
                 }
             });
             for (auto &vs : specs) {
                 models.push_back(build_model(vs));
             }
         }
-        plan.bounds += " templates=" + std::to_string(templates.size());
+        plan.bounds += " templates=" + std::to_string(ntemplates);
         vx::Stage st;
         st.name   = "templates";
-        st.chunks = (int64_t)((templates.size() + 63) / 64);
+        st.chunks = NCH;
         st.fn     = [](int64_t chunk, vx::Ctx &ctx) {
             static thread_local std::vector<Value<char>>     v8;
             static thread_local std::vector<Value<char32_t>> v32;
@@ -1006,12 +1004,19 @@ int main(int argc, char **argv) {
                     v32.push_back(build_value<char32_t>(vs));
                 }
             }
-            for (size_t ti = (size_t)chunk * 64; ti < templates.size() && ti < ((size_t)chunk + 1) * 64; ti++) {
+            Gen     g;
+            int64_t counter = 0;
+            g.bodies(kk, 0, false, 3, [&](const Body &body, int) {
+                if (body.empty() || (counter++ % NCH) != chunk) {
+                    return;
+                }
+                const size_t      ti = (size_t)counter;
+                const std::string tsrc = src_of(body);
                 if (!ctx.next()) {
-                    continue;
+                    return;
                 }
                 if (ctx.want_desc()) {
-                    ctx.describe(templates[ti]);
+                    ctx.describe(tsrc);
                 }
                 ctx.acc.count("states");
                 for (size_t vi = 0; vi < specs.size(); vi++) {
@@ -1022,7 +1027,7 @@ int main(int argc, char **argv) {
                         g_op1_key          = (mode & 1) != 0;
                         g_uneval_iif_false = (mode & 2) != 0;
                         Env env{&models[vi], {}, &owned};
-                        for (auto &w : expand(asts[ti], env, judged)) {
+                        for (auto &w : expand(body, env, judged)) {
                             if (std::find(want.begin(), want.end(), w) == want.end()) {
                                 want.push_back(w);
                             }
@@ -1033,26 +1038,26 @@ int main(int argc, char **argv) {
                         ctx.acc.count("not_judged");
                         continue;
                     }
-                    std::string got = render<char>(templates[ti], v8[vi]);
+                    std::string got = render<char>(tsrc, v8[vi]);
                     ctx.acc.count("evals");
                     if (std::find(want.begin(), want.end(), got) == want.end()) {
                         std::string w;
                         for (auto &x : want) {
                             w += "'" + x + "' ";
                         }
-                        ctx.fail(std::string("value=") + specs[vi].name + " template " + templates[ti], "rendered '" + got + "', the documented expansion is " + w);
+                        ctx.fail(std::string("value=") + specs[vi].name + " template " + tsrc, "rendered '" + got + "', the documented expansion is " + w);
                         continue;
                     }
                     ctx.acc.outcome(vx::hstr(got));
-                    std::string g32 = render<char32_t>(templates[ti], v32[vi]);
+                    std::string g32 = render<char32_t>(tsrc, v32[vi]);
                     if (g32 != got) {
-                        ctx.fail(std::string("value=") + specs[vi].name + " char32_t template " + templates[ti], "char32_t rendered '" + g32 + "', char rendered '" + got + "'");
+                        ctx.fail(std::string("value=") + specs[vi].name + " char32_t template " + tsrc, "char32_t rendered '" + g32 + "', char rendered '" + got + "'");
                     }
                 }
                 if ((ti % 997) == 3) {
-                    ctx.acc.sample(templates[ti]);
+                    ctx.acc.sample(tsrc);
                 }
-            }
+            });
         };
         plan.stages.push_back(st);
         {
